@@ -196,6 +196,13 @@ func checkMain(args []string) {
 	for _, c := range baseline[*prop] {
 		base[c] = true
 	}
+	// A synthesised loop invariant (anchors.go) is assumed at the loop head like a written one, so its proof
+	// obligations always count, whether or not a baseline lists them.
+	for _, r := range results {
+		if strings.HasSuffix(oblClass(r.O.Name), ".autoinv") {
+			base[oblClass(r.O.Name)] = true
+		}
+	}
 	// A claimed obligation that ran out of time (no solver said sat) is tried once more, alone and with a longer limit,
 	// before it is reported: a loaded machine must not turn into a false alarm. At most a few are retried so that a
 	// genuinely broken tree is still reported quickly.
